@@ -347,6 +347,9 @@ def _fill_in_default_arguments(
     keywords = list(call.keywords)
     parameters = list(sig.parameters.values()) if fill_arguments else []
     for param in parameters:
+        if param.kind in (param.VAR_POSITIONAL, param.VAR_KEYWORD):
+            # `*args` and `**kwargs` take what is left over: there is nothing to fill in
+            continue
         if param.name != "self":
             if len(arg_array) <= i_arg:
                 # See if they specified it as a keyword
